@@ -1,2 +1,45 @@
--- driver stub for C04: replaced by the real line-protocol driver
-def main : IO Unit := pure ()
+import Bermuda.Model.Json
+import Bermuda.Model.Basis
+import Bermuda.Spec.C04
+open Lean Bermuda
+
+/-- the implementation's output, when it returned one -/
+def implCells? (j : Json) : Except String (Option (List Cell)) :=
+  match j.getObjVal? "impl" with
+  | .ok v => if v.isNull then .ok none else (cellsFromJson v).map some
+  | .error _ => .ok none
+
+def specObj (impl : Option (List Cell)) (f : List Cell → List (String × Json)) : Json :=
+  match impl with
+  | none => Json.null
+  | some u => Json.mkObj (f u)
+
+def handle (j : Json) : Except String Json := do
+  let op ← (← j.getObjVal? "op").getStr?
+  let cells ← cellsFromJson (← j.getObjVal? "cells")
+  let impl ← implCells? j
+  match op with
+  | "toInc" =>
+    let spec := specObj impl fun u =>
+      if Triangle.isIncremental cells then [("identity", Spec.cellsEqv cells u)]
+      else [("rowSpec", Spec.toIncRowSpec cells u), ("canonical", Spec.isCanonical u)]
+    return Json.mkObj [("model", exceptToJson cellsToJson (Triangle.toIncremental cells)), ("spec", spec)]
+  | "toCum" =>
+    let spec := specObj impl fun t =>
+      if Triangle.isIncremental cells then
+        [("rowSpec", Spec.toCumRowSpec cells t), ("canonical", Spec.isCanonical t)]
+      else [("identity", Spec.cellsEqv cells t)]
+    return Json.mkObj [("model", exceptToJson cellsToJson (Triangle.toCumulative cells)), ("spec", spec)]
+  | "rtCum" =>
+    -- to_cumulative(to_incremental(t))
+    let spec := specObj impl fun back => [("roundTrip", Spec.roundTripCumSpec cells back)]
+    return Json.mkObj [("model", exceptToJson cellsToJson
+      ((Triangle.toIncremental cells).bind Triangle.toCumulative)), ("spec", spec)]
+  | "rtInc" =>
+    -- to_incremental(to_cumulative(u))
+    let spec := specObj impl fun back => [("roundTrip", Spec.roundTripIncSpec cells back)]
+    return Json.mkObj [("model", exceptToJson cellsToJson
+      ((Triangle.toCumulative cells).bind Triangle.toIncremental)), ("spec", spec)]
+  | o => throw s!"unknown op {o}"
+
+def main : IO Unit := serve handle
